@@ -62,6 +62,11 @@ func caseSize(c *Case) int {
 	switch r := c.Recv.(type) {
 	case []any:
 		n = 100 * len(r)
+		for _, e := range r {
+			if sub, ok := e.([]any); ok && c.Fam == "nest" {
+				n += 10 * len(sub)
+			}
+		}
 	case string:
 		n = 100 * len(r)
 	}
@@ -121,6 +126,20 @@ func forEachCase(a shardArg, emit func(*Case)) {
 		rs := arr2Receivers(a.Quick, a.At)
 		for i := a.Lo; i < a.Hi && i < len(rs); i++ {
 			genAft(a.M, rs[i], a.At, emit)
+		}
+		return
+	}
+	if a.Fam == "arrk" {
+		rs := kindReceivers(a.Quick, a.At)
+		for i := a.Lo; i < a.Hi && i < len(rs); i++ {
+			genKinds(a.M, rs[i], a.At, emit)
+		}
+		return
+	}
+	if a.Fam == "nest" {
+		rs := nestReceivers(a.M, a.Quick, a.At)
+		for i := a.Lo; i < a.Hi && i < len(rs); i++ {
+			genNest(a.M, rs[i], a.At, emit)
 		}
 		return
 	}
@@ -193,6 +212,9 @@ func worker(w *pool.W, arg json.RawMessage) {
 			}
 			f.N++
 			fs := strings.Join(c.Shape, ",")
+			if c.Fam == "nest" {
+				fs += ": " + c.Inner + " after " + c.Hist
+			}
 			if c.Pre != "" {
 				fs = "after " + c.Pre + ": " + fs
 			}
@@ -299,6 +321,12 @@ func main() {
 	for _, m := range aftMethods {
 		plan("aft", m, len(arr2Receivers(quick, at)))
 	}
+	for _, m := range arrMethods {
+		plan("arrk", m, len(kindReceivers(quick, at)))
+	}
+	for _, m := range nestRoutes {
+		plan("nest", m, len(nestReceivers(m, quick, at)))
+	}
 	for _, m := range strMethods {
 		plan("str", m, len(strReceivers(quick, at)))
 	}
@@ -390,10 +418,10 @@ func main() {
 	// a two-step cell that fails exactly like its one-step counterpart is the same defect: fold it in,
 	// so that "after-prior-call." keys only name defects that need an already-changed receiver
 	for id, cf := range failing {
-		if !strings.HasPrefix(id, "arr2:") {
+		if !strings.HasPrefix(id, "arr2:") && !strings.HasPrefix(id, "arrk:") {
 			continue
 		}
-		twin := "arr:" + strings.TrimPrefix(id, "arr2:")
+		twin := "arr:" + id[5:]
 		if tw := failing[twin]; tw != nil && fclause[twin] == fclause[id] {
 			tw.n += cf.n
 			cellCount[twin] += cellCount[id]
